@@ -42,3 +42,14 @@ package token
 //@   ensures [C18] nofault: result2 == nil ==> failed(r) == old(failed(r))
 //@   ensures [C06,C08,C18] cid: result2 == nil ==> (exists x string :: delivered(r) == old(delivered(r)) ++ x && result1 == ucanCid(x) && genericVerified(decodeWith(dagcbor.Decode, x), result0))
 //@   assigns anything
+//@
+//@ // the codec-specific entry points are Decode with that codec (a token only through a typed, verifying decoder, and only
+//@ // from the decoding of the bytes under the codec the function is named after)
+//@ func FromDagCbor
+//@   ensures [C09] total: true
+//@   requires modelsWF()
+//@   ensures [C06,C10] typed: result1 == nil ==> genericVerified(decodeWith(dagcbor.Decode, bytes(b)), result0)
+//@ func FromDagJson
+//@   ensures [C09] total: true
+//@   requires modelsWF()
+//@   ensures [C06,C10] typed: result1 == nil ==> genericVerified(decodeWith(dagjson.Decode, bytes(b)), result0)
